@@ -145,7 +145,10 @@ namespace c13
       //     computes tuple frequencies; same oracles as above per component
       if(tuple)
       {
-        typedef FEAT::Space::Lagrange1::Element<TrafoT> Space1; typedef FEAT::LAFEM::TupleVector<VB, V> TV; typedef FEAT::LAFEM::TupleMirror<Mi, Mi> TM;
+        auto tuple_check = [&](auto order_tag)
+        {
+        constexpr bool BF = decltype(order_tag)::value;   // blocked component first (buffer offset 0) or second (behind the scalar part)
+        typedef FEAT::Space::Lagrange1::Element<TrafoT> Space1; typedef typename std::conditional<BF, FEAT::LAFEM::TupleVector<VB, V>, FEAT::LAFEM::TupleVector<V, VB>>::type TV; typedef FEAT::LAFEM::TupleMirror<Mi, Mi> TM; constexpr int IB = BF ? 0 : 1, IS = BF ? 1 : 0;   // positions of the blocked / scalar component
         Space1 bsp1(btrafo); const Index N1 = bsp1.get_num_dofs();
         std::vector<double> pv((size_t)N1); for(Index i = 0; i < N1; ++i) pv[i] = double(int((i * 7 + 3) % 23) - 11) / 4.0;
         std::vector<int> share1((size_t)N1, 0); std::vector<Mi> pm1(R); std::vector<std::map<int, TM>> thm(R); std::vector<TV> tl, tfreq; std::vector<Index> nd1(R);
@@ -155,30 +158,30 @@ namespace c13
           Assembly::MirrorAssembler::assemble_mirror(pm1[r], bsp1, *P.base->get_patch(int(r)));
           VF_CHECK(pm1[r].num_indices() == nd1[r], "tuple: patch " << r << " Lagrange-1 patch->base map has " << pm1[r].num_indices() << " entries for " << nd1[r] << " dofs");
           for(Index k = 0; k < nd1[r]; ++k) share1[pm1[r].indices()[k]]++;
-          TV v; v.template at<0>() = VB(nd[r]); v.template at<1>() = V(nd1[r]);
-          for(Index k = 0; k < nd[r]; ++k) { Index g = pm[r].indices()[k]; DT* e = v.template at<0>().template elements<FEAT::LAFEM::Perspective::pod>(); e[2 * k] = xv[g]; e[2 * k + 1] = 2.0 * wv[g]; }
-          for(Index k = 0; k < nd1[r]; ++k) v.template at<1>().elements()[k] = pv[pm1[r].indices()[k]];
+          TV v; v.template at<IB>() = VB(nd[r]); v.template at<IS>() = V(nd1[r]);
+          for(Index k = 0; k < nd[r]; ++k) { Index g = pm[r].indices()[k]; DT* e = v.template at<IB>().template elements<FEAT::LAFEM::Perspective::pod>(); e[2 * k] = xv[g]; e[2 * k + 1] = 2.0 * wv[g]; }
+          for(Index k = 0; k < nd1[r]; ++k) v.template at<IS>().elements()[k] = pv[pm1[r].indices()[k]];
           Global::Gate<TV, TM> gate;
           for(int s : P.comm[r])
           {
             const PartOf<Shape_>* hp = P.patch[r]->get_halo(s); Mi m0, m1; Assembly::MirrorAssembler::assemble_mirror(m0, sp, *hp); Assembly::MirrorAssembler::assemble_mirror(m1, sp1, *hp);
-            TM tm(std::move(m0), std::move(m1)); thm[r].emplace(s, tm.clone()); gate._ranks.push_back(s); gate._mirrors.push_back(std::move(tm));
+            TM tm = BF ? TM(std::move(m0), std::move(m1)) : TM(std::move(m1), std::move(m0)); thm[r].emplace(s, tm.clone()); gate._ranks.push_back(s); gate._mirrors.push_back(std::move(tm));
           }
-          TV tmpl; tmpl.template at<0>() = VB(nd[r]); tmpl.template at<1>() = V(nd1[r]);
+          TV tmpl; tmpl.template at<IB>() = VB(nd[r]); tmpl.template at<IS>() = V(nd1[r]);
           gate.compile(std::move(tmpl)); tfreq.push_back(gate.get_freqs().clone()); tl.push_back(std::move(v));
         }
         for(size_t r = 0; r < R; ++r)
         {
-          const DT* f0 = tfreq[r].template at<0>().template elements<FEAT::LAFEM::Perspective::pod>();
+          const DT* f0 = tfreq[r].template at<IB>().template elements<FEAT::LAFEM::Perspective::pod>();
           for(Index k = 0; k < nd[r]; ++k) for(int j = 0; j < 2; ++j) VF_CHECK(fabsl((long double)f0[2 * k + (Index)j] - 1.0L / (long double)share[pm[r].indices()[k]]) <= 4e-16L, "tuple gate: patch " << r << " component 0 dof " << k << " frequency " << f0[2 * k + (Index)j] << " expected 1/" << share[pm[r].indices()[k]]);
-          for(Index k = 0; k < nd1[r]; ++k) VF_CHECK(fabsl((long double)tfreq[r].template at<1>().elements()[k] - 1.0L / (long double)share1[pm1[r].indices()[k]]) <= 4e-16L, "tuple gate: patch " << r << " component 1 dof " << k << " frequency " << tfreq[r].template at<1>().elements()[k] << " expected 1/" << share1[pm1[r].indices()[k]]);
+          for(Index k = 0; k < nd1[r]; ++k) VF_CHECK(fabsl((long double)tfreq[r].template at<IS>().elements()[k] - 1.0L / (long double)share1[pm1[r].indices()[k]]) <= 4e-16L, "tuple gate: patch " << r << " component 1 dof " << k << " frequency " << tfreq[r].template at<IS>().elements()[k] << " expected 1/" << share1[pm1[r].indices()[k]]);
         }
         std::vector<TV> ts; for(auto& v : tl) ts.push_back(v.clone(FEAT::LAFEM::CloneMode::Deep));
         for(size_t r = 0; r < R; ++r) for(int s : P.comm[r])
         {
           const TM& ms = thm[(size_t)s].at(int(r)); const TM& mr = thm[r].at(s);
           V buf = ms.create_buffer(tl[(size_t)s]); VF_CHECK(buf.size() == mr.buffer_size(tl[r]), "tuple mirrors " << r << "<->" << s << " disagree on the buffer size: " << buf.size() << " vs " << mr.buffer_size(tl[r]));
-          VF_CHECK(buf.size() == 2 * ms.template at<0>().num_indices() + ms.template at<1>().num_indices(), "tuple buffer size " << buf.size() << " is not 2*" << ms.template at<0>().num_indices() << " + " << ms.template at<1>().num_indices());
+          VF_CHECK(buf.size() == 2 * ms.template at<IB>().num_indices() + ms.template at<IS>().num_indices(), "tuple (" << (BF ? "blocked,scalar" : "scalar,blocked") << ") buffer size " << buf.size() << " is not 2*" << ms.template at<IB>().num_indices() << " + " << ms.template at<IS>().num_indices());
           buf.format(DT(777)); ms.gather(buf, tl[(size_t)s]); for(Index q = 0; q < buf.size(); ++q) VF_CHECK(buf.elements()[q] != DT(777), "tuple gather left buffer entry " << q << " of " << buf.size() << " unwritten");
           mr.scatter_axpy(ts[r], buf);
         }
@@ -186,14 +189,16 @@ namespace c13
         for(Index i = 0; i < N; ++i) { ref += (long double)xv[i] * xv[i] + 4.0L * wv[i] * wv[i]; } for(Index i = 0; i < N1; ++i) ref += (long double)pv[i] * pv[i]; refabs = ref;
         for(size_t r = 0; r < R; ++r)
         {
-          const DT* e = ts[r].template at<0>().template elements<FEAT::LAFEM::Perspective::pod>();
+          const DT* e = ts[r].template at<IB>().template elements<FEAT::LAFEM::Perspective::pod>();
           for(Index k = 0; k < nd[r]; ++k) { Index g = pm[r].indices()[k];
-            VF_CHECK(fabsl((long double)e[2 * k] - (long double)share[g] * xv[g]) <= 1e-13L * (xmax + 1) * share[g] && fabsl((long double)e[2 * k + 1] - (long double)share[g] * 2.0 * wv[g]) <= 1e-12L * share[g] * 10, "tuple sync_0: patch " << r << " component 0 dof " << k << " does not hold (number of sharing patches) x value: " << e[2 * k] << "," << e[2 * k + 1] << " for " << share[g] << " x (" << xv[g] << "," << 2.0 * wv[g] << ")"); }
-          for(Index k = 0; k < nd1[r]; ++k) { Index g = pm1[r].indices()[k]; DT got1 = ts[r].template at<1>().elements()[k];
-            VF_CHECK(fabsl((long double)got1 - (long double)share1[g] * pv[g]) <= 1e-13L * 8 * share1[g], "tuple sync_0: patch " << r << " component 1 dof " << k << " = " << got1 << " expected " << share1[g] << " x " << pv[g]); }
+            VF_CHECK(fabsl((long double)e[2 * k] - (long double)share[g] * xv[g]) <= 1e-13L * (xmax + 1) * share[g] && fabsl((long double)e[2 * k + 1] - (long double)share[g] * 2.0 * wv[g]) <= 1e-12L * share[g] * 10, (BF ? "tuple<blocked,scalar>" : "tuple<scalar,blocked>") << " sync_0: patch " << r << " component 0 dof " << k << " does not hold (number of sharing patches) x value: " << e[2 * k] << "," << e[2 * k + 1] << " for " << share[g] << " x (" << xv[g] << "," << 2.0 * wv[g] << ")"); }
+          for(Index k = 0; k < nd1[r]; ++k) { Index g = pm1[r].indices()[k]; DT got1 = ts[r].template at<IS>().elements()[k];
+            VF_CHECK(fabsl((long double)got1 - (long double)share1[g] * pv[g]) <= 1e-13L * 8 * share1[g], (BF ? "tuple<blocked,scalar>" : "tuple<scalar,blocked>") << " sync_0: patch " << r << " component 1 dof " << k << " = " << got1 << " expected " << share1[g] << " x " << pv[g]); }
           got += (long double)tfreq[r].triple_dot(tl[r], tl[r]);
         }
         VF_CHECK(fabsl(got - ref) <= 64.0L * 1.2e-16L * (long double)(3 * N + N1 + 8) * (refabs + 1e-300L), "tuple: sum of frequency-weighted local dots " << (double)got << " differs from the global dot " << (double)ref);
+        };
+        tuple_check(std::true_type()); tuple_check(std::false_type());
       }
     }
   };
